@@ -471,6 +471,35 @@ def run_step(step):
         # the second document through the same instance must come out as through a fresh one
         obs.append(({'kind': 'render', 'doc': step['doc'], 'renderer': rname, 'opts': ropts}, val))
         obs.append(('reset', defaults_ok()))
+    elif kind == 'markdown-api':
+        # the one-call API (what the command-line tool uses): mistletoe.markdown(text, RendererClass), here with a renderer
+        # class that brings a token which raises on the trigger document; then the same call with an ordinary document
+        import mistletoe
+        base = mt.renderer_class(step['renderer'])
+        F, module = fault_token(step['fault'])
+
+        class Faulty(base):
+            def __init__(self, **kw):
+                super().__init__(F, **kw)
+
+            def _nothing(self, token, *a, **kw):       # (a renderer has to bring a render function for its token)
+                return ''
+            render_fault_span = render_fault_span_c = render_fault_block = render_fault_block_r = _nothing
+        try:
+            mistletoe.markdown(TRIGGERS[step['place']], Faulty)
+            obs.append(('fault-fired', False))
+        except Boom:
+            obs.append(('fault-fired', True))
+        except Exception as e:  # noqa
+            obs.append(('fault-fired', type(e).__name__))
+        obs.append(('reset', defaults_ok()))
+        try:
+            val = mistletoe.markdown(DOCS[step['doc']], base)
+        except Exception as e:  # noqa
+            val = 'EXC ' + type(e).__name__
+        if step['renderer'] != 'Toc':
+            obs.append(({'kind': 'render', 'doc': step['doc'], 'renderer': step['renderer'], 'opts': {}}, val))
+        obs.append(('reset', defaults_ok()))
     elif kind == 'same-instance':
         # enter R, parse+render the first document, parse+render the second one, exit: the second output is the fresh one
         cls = mt.renderer_class(step['renderer'])
@@ -665,6 +694,8 @@ def step_name(s):
         return 'subclass-session(%s)' % s['doc']
     if s['kind'] == 'reuse-after-render-error':
         return 'reuse-after-render-error(%s,%s)' % (s['how'], s['doc'])
+    if s['kind'] == 'markdown-api':
+        return 'markdown-api(%s, %s@%s then %s)' % (s['renderer'], s['fault'], s['place'], s['doc'])
     if s['kind'] == 'same-instance':
         return 'same-instance(%s: %s then %s)' % (s['renderer'], s['first'], s['doc'])
     if s['kind'] == 'nested-exit':
@@ -707,6 +738,8 @@ def quick_extra_alphabet():
         steps.append({'kind': 'reuse-after-render-error', 'how': how, 'doc': 'tight-list' if how != 'latex-verb' else 'code'})
     steps.append({'kind': 'nested-exit', 'outer': ['Ast', {}], 'inner': ['Html', {}]})
     steps.append({'kind': 'nested-exit', 'outer': ['Html', {}], 'inner': ['LaTeX', {}]})
+    for r, f, place in (('Html', 'span-find', 'top'), ('LaTeX', 'block-start', 'quote-later'), ('Ast', 'span-ctor', 'quote')):
+        steps.append({'kind': 'markdown-api', 'renderer': r, 'fault': f, 'place': place, 'doc': 'code'})
     for r, o in (('Html', {}), ('LaTeX', {}), ('Markdown', {}), ('Toc', {})):
         for first, second in SAME_INSTANCE_PAIRS[:4]:
             steps.append({'kind': 'same-instance', 'renderer': r, 'opts': o, 'first': first, 'doc': second})
@@ -752,6 +785,10 @@ def full_alphabet():
     for how in REUSE_KINDS:
         for d in ('tight-list', 'code', 'latex-packages', 'setext'):
             steps.append({'kind': 'reuse-after-render-error', 'how': how, 'doc': d})
+    for r in ('Html', 'Markdown', 'LaTeX', 'Ast', 'Jira', 'XWiki20', 'GithubWiki', 'MathJax', 'Pygments'):
+        for f in FAULT_KINDS:
+            for place in ('top', 'quote-later'):
+                steps.append({'kind': 'markdown-api', 'renderer': r, 'fault': f, 'place': place, 'doc': 'code' if f.startswith('span') else 'setext'})
     for r, o in RENDER_CONFIGS:
         for first, second in SAME_INSTANCE_PAIRS:
             steps.append({'kind': 'same-instance', 'renderer': r, 'opts': o, 'first': first, 'doc': second})
